@@ -322,7 +322,8 @@ func (b *defaultBinder) Bind(req *protocol.Request, v interface{}, params param.
 
 // best effort binding
 func (b *defaultBinder) preBindBody(req *protocol.Request, v interface{}) error {
-	if req.Header.ContentLength() <= 0 {
+	// (-1: a body of unknown length, e.g. a chunked request read as a stream)
+	if req.Header.ContentLength() == 0 {
 		return nil
 	}
 	ct := bytesconv.B2s(req.Header.ContentType())
